@@ -177,7 +177,7 @@ def _collect_loops(stmts):
         b = stmts[i + 1] if i + 1 < len(stmts) else None
         new = _collect_pair(a, b) if b is not None else None
         if new is None and b is not None:
-            new = _return_pair(a, b)
+            new = _return_pair(a, b) or _iter_next_pair(a, b, stmts[i + 2:])
             if new is not None:
                 out.append(new)
                 i += 2
@@ -249,6 +249,36 @@ def _without_temporaries(loop):
     new = ast.For(target=loop.target, iter=loop.iter, body=[new_last], orelse=[])
     new._temporaries = set(m)
     return ast.copy_location(new, loop)
+
+
+def _iter_next_pair(a, b, later):
+    """The `for` statement written out:  it = iter(X)  /  while True: try: T = next(it) except StopIteration: break|return ...  ; BODY
+    is  for T in X: BODY  [else: return ...]  when `it` is used nowhere else."""
+    if not (isinstance(a, ast.Assign) and len(a.targets) == 1 and isinstance(a.targets[0], ast.Name) and isinstance(a.value, ast.Call)
+            and isinstance(a.value.func, ast.Name) and a.value.func.id == "iter" and len(a.value.args) == 1 and not a.value.keywords):
+        return None
+    it = a.targets[0].id
+    if not (isinstance(b, ast.While) and isinstance(b.test, ast.Constant) and b.test.value is True and not b.orelse and b.body and isinstance(b.body[0], ast.Try)):
+        return None
+    tr = b.body[0]
+    if not (len(tr.body) == 1 and isinstance(tr.body[0], ast.Assign) and len(tr.body[0].targets) == 1 and not tr.orelse and not tr.finalbody and len(tr.handlers) == 1):
+        return None
+    asg, h = tr.body[0], tr.handlers[0]
+    if not (isinstance(asg.value, ast.Call) and isinstance(asg.value.func, ast.Name) and asg.value.func.id == "next" and len(asg.value.args) == 1
+            and isinstance(asg.value.args[0], ast.Name) and asg.value.args[0].id == it and not asg.value.keywords):
+        return None
+    if not (isinstance(h.type, ast.Name) and h.type.id == "StopIteration" and h.name is None and len(h.body) == 1 and isinstance(h.body[0], (ast.Break, ast.Return))):
+        return None
+    rest = b.body[1:]
+    if any(isinstance(x, ast.Name) and x.id == it for st_ in list(rest) + list(later) for x in ast.walk(st_)):
+        return None
+    # a `break` of the body would leave the `while`; in the `for` it still leaves the loop -- but then an `else:` clause must not run, which is what
+    # for/else gives; a `continue` goes to the next `next()`, as in the for loop
+    orelse = [] if isinstance(h.body[0], ast.Break) else [h.body[0]]
+    new = ast.For(target=asg.targets[0], iter=a.value.args[0], body=rest or [ast.copy_location(ast.Pass(), b)], orelse=orelse)
+    ast.copy_location(new, b)
+    ast.fix_missing_locations(new)
+    return new
 
 
 def _return_pair(a, b):
